@@ -782,11 +782,17 @@ def plan_c15(tier, seed, rng):
         sets = [rand_table(rng, 'mtb_s', npts) for _ in range(12)] + [[0] * npts, [1] * npts]
         scripts.append(('r%03d' % n, c15_script(rng, sizes, rng.choice('FQ'), sets)))
         n += 1
+    # wide variables: nodes with many children (look-up by index scans / bisects the children)
+    for sizes in ([[12], [3, 10], [11, 3], [2, 9, 2]] if tier == 'thorough' else [rng.choice([[12], [11]]), rng.choice([[3, 10], [11, 3]])]):
+        npts = points_of(sizes, False)
+        sets = [rand_table(rng, 'mtb_s', npts) for _ in range(6)] + [[1] * npts, [1 if rng.random() < 0.9 else 0 for _ in range(npts)]]
+        scripts.append(('w%03d' % n, c15_script(rng, sizes, rng.choice('FQ'), sets)))
+        n += 1
     return dict(
         scripts=scripts, validators=[API], tags={'C15'},
         rule='every boolean set over <2,2> and <2,3> (thorough: also <2,2,2> and <3,3>; quick samples <2,3>) including the empty and the full set, in a '
              'fully- and in a quasi-reduced source forest: CONVERT_TO_INDEX_SET evaluated at every point, getElement(i) for every i in -1..n+1, '
-             'getIndexSetCardinality of the root, CARDINALITY and iteration of the index set; plus seeded random sets on shapes up to 4 variables; '
+             'getIndexSetCardinality of the root, CARDINALITY and iteration of the index set; plus seeded random sets on shapes up to 4 variables and on shapes with a wide variable (9 to 12 values: nodes with many children); '
              'non-trivial = the set is neither empty nor full',
         exhaustive=True,
     )
@@ -2295,6 +2301,9 @@ def c14_script(rng, sizes, kind, rule, mode):
             T = [1] * npts
         else:
             T = rand_table(rng, kind, npts, pal, p_default=rng.choice([0.3, 0.6]))
+        if KINDS[kind][2] == 'EP' and rng.random() < 0.5:
+            # edge values that need more than 32 bits (the file holds them in decimal)
+            T = [(rng.choice(WIDE_PAL) if (v != INF and rng.random() < 0.4) else v) for v in T]
         table_coll(S, e, f, kind, T, sizes)
     # shared sub-graphs: an edge built from the others; a repeated root
     if n >= 3 and KINDS[kind][1] == 'B':
